@@ -8,7 +8,8 @@ order; `#[bfield_codec(ignore)]` fields are not part of the shape, the generated
 `bfieldcodec_derive/src/lib.rs` generates. The quantifier over *all programs* of the shape grammar is the
 quantifier over `fs : List Ty` / `vars : List (List Ty)` (any field count, any static/dynamic mix, any nesting —
 generic parameters are instantiated types). The tie between the `quote!` templates and these constructors is a
-finite corpus (family `derive`: 43 type definitions × both macro versions, compared bit for bit) — see
+finite corpus (family `derive`: 43 type definitions × both macro versions, compared bit for bit, plus 48 random shape definitions
+generated from the seed by `harness/build.rs`) — see
 `tools/props/C14.json`.
 
 The theorems below are the C03/C13 guarantees *for these constructors* (the mutual induction of
@@ -81,20 +82,11 @@ theorem derive_layout_struct (fs : List Ty) (vs : List Val) :
 example : encode (.struct [.u32, .vec .u8, .u64]) (.list [.num 9, .list [.num 1, .num 2], .num (2^32)]) =
     [0, 1, 3, 2, 1, 2, 9] := rfl
 
-theorem encodeVariant_eq (vars : List (List Ty)) (k : Nat) (fs : List Ty) (vs : List Val) (h : vars[k]? = some fs) :
-    encodeVariant vars k vs = encodeFields fs vs := by
-  induction vars generalizing k with
-  | nil => simp at h
-  | cons f rest ih =>
-    cases k with
-    | zero => simp at h; subst h; simp [encodeVariant]
-    | succ k => simp at h; simp [encodeVariant, ih k h]
-
 /-- enum: the **discriminant first** (index of the variant in declaration order), then the variant's fields laid
     out like a struct -/
 theorem derive_layout_enum (vars : List (List Ty)) (k : Nat) (fs : List Ty) (vs : List Val) (h : vars[k]? = some fs) :
     encode (.enum vars) (.variant k vs) = k :: encode (.struct fs) (.list vs) := by
-  simp [encode, encodeVariant_eq vars k fs vs h]
+  simp [encode, TF.Codec.encodeVariant_eq vars k fs vs h]
 example : encode (.enum [[], [.u32, .vec .u64]]) (.variant 1 [.num 9, .list [.num 7, .num 8]]) = [1, 5, 2, 7, 0, 8, 0, 9] :=
   rfl
 
@@ -159,6 +151,7 @@ theorem derive_rejects_unknown_discriminant (vars : List (List Ty)) (d : Nat) (r
       | zero => simp at hd
       | succ d => simp only [decodeVariant]; exact ih d (by simp at hd; omega)
   simp [decode, this vars d h]
+example : decode (.enum [[], [.u32]]) [2] = .err .badDiscriminant := rfl
 theorem derive_rejects_empty_enum_sequence (vars : List (List Ty)) : decode (.enum vars) [] = .err .empty := by
   simp [decode]
 /-- a unit variant followed by anything, a unit struct given anything -/
@@ -185,6 +178,8 @@ theorem derive_decode_variant (vars : List (List Ty)) (d : Nat) (fs : List Ty) (
   simp only [decode, this vars d h]
   cases finishFields (decodeFields fs rest) <;> simp [Outcome.map, Outcome.bind]
 
+example : decode (.enum [[], [.u32, .vec .u8]]) [1, 2, 1, 7, 9] = .ok (.variant 1 [.num 9, .list [.num 7]]) ∧
+    decode (.struct [.u32, .vec .u8]) [2, 1, 7, 9] = .ok (.list [.num 9, .list [.num 7]]) := ⟨rfl, rfl⟩
 /-! ## derived types of static width 0 inherit finding F10 when used as list items -/
 theorem derive_zero_width_shapes :
     staticLength (.struct []) = some 0 ∧ staticLength (.struct [.phantom, .phantom]) = some 0 ∧
